@@ -1,15 +1,15 @@
 SPECIFICATION Spec
-CONSTANTS NC = 3
- K = 2
+CONSTANTS NC = 2
+ K = 1
  MaxVotes = 2
- MaxLive = 3
+ MaxLive = 2
  MaxSteps = 0
  RestartAnywhere = FALSE
  Touch = {0}
- VMaps = {100}
- Persist = FALSE
- MaxChg = 3
- Dev = {}
+ VMaps = {2}
+ Persist = TRUE
+ MaxChg = 2
+ Dev = {"Dev_StaleSlotLength"}
 INVARIANTS TypeOK TopIsFullSort FileOK
 PROPERTIES RestartKeepsTop
 CHECK_DEADLOCK FALSE
